@@ -125,6 +125,11 @@ type ringKey struct {
 
 type worldSpec struct {
 	extraSSH bool // ssh.keys: a retired and a federated key of each type
+	via      string // "" provisioner structs as built here; "json": the list goes through its ca.json form
+	// (Marshal, provisioner.List.UnmarshalJSON); "admin": EnableAdmin with a bbolt database: the list is
+	// migrated into the admin database on the first start and every provisioner is rebuilt from there
+	sshFiles bool // the SSH CA keys come from ca.json (ssh.hostKey / ssh.userKey: key files read by the key manager), not from options
+	restart bool // shut the authority down and start it again on the same database before use
 	hosts []string
 	db    bool   // bbolt database (default: none, tokens tracked in memory)
 	only  string // "user" / "host": the authority has only that SSH CA key (ssh must be true)
@@ -135,11 +140,14 @@ type worldSpec struct {
 
 var worldSpecs = []worldSpec{
 	{hosts: []string{"ca.verif.test"}, ssh: true, full: true, extraSSH: true},
-	{hosts: []string{"ca.verif.test", "::1"}, ssh: false, full: true},
-	{hosts: []string{"CA2.verif.test:8443", "10.1.2.3"}, ssh: true, noIat: true, full: false},
+	{hosts: []string{"ca.verif.test", "::1"}, ssh: false, full: true, via: "json"},
+	{hosts: []string{"CA2.verif.test:8443", "10.1.2.3"}, ssh: true, noIat: true, full: false, sshFiles: true},
 	// only one of the two SSH CA keys configured: certificates of the other type have no CA key at all
 	{hosts: []string{"ca.verif.test"}, ssh: true, only: "user", full: false},
 	{hosts: []string{"ca.verif.test"}, ssh: true, only: "host", full: false},
+	// every provisioner migrated into the admin database on the first start, the authority restarted
+	// on that database, the provisioners rebuilt from their database form
+	{hosts: []string{"ca.verif.test"}, ssh: true, full: true, via: "admin", restart: true},
 }
 
 func newWorld(spec worldSpec) *World {
@@ -207,8 +215,11 @@ func newWorld(spec worldSpec) *World {
 		domains := []string{"example.com"}
 		add(&Prov{Ty: "oidc", Name: "oidc", ClientID: "client-abc", Issuer: issuer, Init: true, SSH: true, jwk: ok, oidcKeys: set, admins: admins, domains: domains},
 			&provisioner.OIDC{Type: "OIDC", Name: "oidc", ClientID: "client-abc", ConfigurationEndpoint: w.srv.URL, Admins: admins, Domains: domains, Claims: sshClaims})
+		// a second OIDC provisioner behind the same identity provider (same issuer and keys, another client id)
+		add(&Prov{Ty: "oidc", Name: "oidc2", ClientID: "client-def", Issuer: issuer, Init: true, SSH: false, jwk: ok, oidcKeys: set, admins: nil, domains: nil},
+			&provisioner.OIDC{Type: "OIDC", Name: "oidc2", ClientID: "client-def", ConfigurationEndpoint: w.srv.URL})
 		// cloud identity provisioners, keys served by the same local server
-		w.addClouds(add, mux, sshClaims)
+		w.addClouds(add, sshClaims, spec.via == "", spec.via != "admin")
 		// acme, scep (no token credential at all)
 		add(&Prov{Ty: "acme", Name: "acme", Init: true}, &provisioner.ACME{Type: "ACME", Name: "acme"})
 		add(&Prov{Ty: "scep", Name: "scep", Init: true}, &provisioner.SCEP{Type: "SCEP", Name: "scep", ChallengePassword: "secret"})
@@ -224,11 +235,21 @@ func newWorld(spec worldSpec) *World {
 		add(&Prov{Ty: "sshpop", Name: "pop-norenew", Init: true, SSH: true, DisableRenewal: true},
 			&provisioner.SSHPOP{Type: "SSHPOP", Name: "pop-norenew", Claims: &provisioner.Claims{EnableSSHCA: bptr(true), DisableRenewal: bptr(true)}})
 	}
-	fo := fixture.Opts{SSH: spec.ssh && spec.only == "", NoDB: !spec.db, Provisioners: extra,
+	if spec.via == "json" {
+		// what loading ca.json does: the provisioner list is JSON, parsed by provisioner.List.UnmarshalJSON
+		b := must(json.Marshal(extra))
+		var parsed provisioner.List
+		if err := json.Unmarshal(b, &parsed); err != nil || len(parsed) != len(extra) {
+			panic(fmt.Sprintf("provisioner list does not survive its JSON form: %v", err))
+		}
+		extra = parsed
+	}
+	fo := fixture.Opts{SSH: spec.ssh && spec.only == "" && !spec.sshFiles, NoDB: !spec.db && spec.via != "admin", Provisioners: extra,
 		JWKClaims: sshClaims,
 		Config: func(c *config.Config) {
 			c.DNSNames = spec.hosts
 			c.AuthorityConfig.DisableIssuedAtCheck = spec.noIat
+			c.AuthorityConfig.EnableAdmin = spec.via == "admin"
 		}}
 	switch spec.only {
 	case "user":
@@ -237,6 +258,24 @@ func newWorld(spec worldSpec) *World {
 	case "host":
 		w.sshHost = must(ecdsa.GenerateKey(elliptic.P256(), rand.Reader))
 		fo.Extra = []authority.Option{authority.WithSSHHostSigner(w.sshHost)}
+	}
+	if spec.sshFiles {
+		inner := fo.Config
+		var paths [2]string
+		for i, dst := range []*crypto.Signer{&w.sshHost, &w.sshUser} {
+			k := must(ecdsa.GenerateKey(elliptic.P256(), rand.Reader))
+			*dst = k
+			f := must(os.CreateTemp("", "verif-ssh-ca-*.pem"))
+			der := must(x509.MarshalPKCS8PrivateKey(k))
+			f.Write(pem.EncodeToMemory(&pem.Block{Type: "PRIVATE KEY", Bytes: der}))
+			f.Close()
+			paths[i] = f.Name()
+			w.tmpFiles = append(w.tmpFiles, f.Name())
+		}
+		fo.Config = func(c *config.Config) {
+			inner(c)
+			c.SSH = &config.SSHConfig{HostKey: paths[0], UserKey: paths[1]}
+		}
 	}
 	var extra4 []ringKey
 	if spec.extraSSH {
@@ -265,7 +304,14 @@ func newWorld(spec worldSpec) *World {
 	if err != nil {
 		panic(fmt.Sprintf("fixture: %v", err))
 	}
-	if spec.ssh && spec.only == "" {
+	if spec.restart {
+		ca2, err := ca.Restart()
+		if err != nil {
+			panic(fmt.Sprintf("restart: %v", err))
+		}
+		ca = ca2
+	}
+	if spec.ssh && spec.only == "" && !spec.sshFiles {
 		w.sshUser, w.sshHost = ca.SSHUser, ca.SSHHost
 	}
 	if w.sshHost != nil {
